@@ -66,6 +66,21 @@ class TFile(io.BytesIO):
         super().close()
 
 
+SHARED_HANDLES = [False]  # like fsspec's memory filesystem: every open() of a path returns the SAME file object, rewound
+_shared = {}
+
+
+class TSharedFile(TFile):
+    """one object per path (what MemoryFileSystem hands out): position and content are shared by everybody who opened it"""
+
+    def close(self):
+        _hook("pre", "close", self.path)
+        LOG.append(("close", self.path))  # like MemoryFile, closing does not invalidate the shared object
+
+    def __exit__(self, *a):
+        self.close()
+
+
 BUFFERED = [None]  # None: plain file objects; int: hand out fsspec buffered files (AbstractBufferedFile) with this block size
 
 
@@ -124,6 +139,12 @@ class TraceFS(AbstractFileSystem):
             raise PermissionError(f"read-only filesystem: {path}")
         if path not in STORE:
             raise FileNotFoundError(path)
+        if SHARED_HANDLES[0]:
+            f = _shared.get(path)
+            if f is None or f.getbuffer().nbytes != len(STORE[path]):
+                f = _shared[path] = TSharedFile(path, STORE[path])
+            io.BytesIO.seek(f, 0)
+            return f
         if BUFFERED[0]:
             return TBufFile(self, path, STORE[path], BUFFERED[0])
         return TFile(path, STORE[path])
